@@ -106,11 +106,13 @@ def contains(I, cont, x):
         return z3.BoolVal(False)
     if isinstance(cont, VMap) or isinstance(cont, VSet):
         if isinstance(x, VDyn):
-            if cont.kt is TStr:
-                return z3.And(D.is_str(x.e), z3.Select(cont.dom, D.js(x.e)))
+            if cont.kt is TStr or cont.kt is D.TDKey:
+                return z3.And(D.is_str(x.e), z3.Select(cont.dom, unwrap(VStr(D.js(x.e)), cont.kt)))
             raise Unsupported("Dyn key tested against a non-string keyed container in a specification")
         if not I.spec and isinstance(x, (VSeq, VMap, VSet, VDictRec, VEmptyList)):
             I.raise_exc("TypeError", "unhashable type")
+        if isinstance(cont, VMap) and isinstance(x, VStr) and getattr(cont, "from_dyn", False):
+            D.key_fact(I, cont, unwrap(x, cont.kt))
         if isinstance(x, VOpt) and not isinstance(cont.kt, TOpt) and x.t.inner == cont.kt:
             return z3.And(z3.Not(x.is_none()), z3.Select(cont.dom, x.t.dt.val(x.e)))
         try:
@@ -190,6 +192,7 @@ def subscript(I, o, k):
             I.raise_exc("KeyError", "key of wrong type")
         I.require_defined(z3.Select(o.dom, kk), "KeyError", "missing key")
         I.ver.on_map_read(I, o, kk)
+        D.key_fact(I, o, kk)
         return o.get(kk)
     if isinstance(o, VTuple):
         c = const_of(k)
@@ -921,7 +924,12 @@ def _minmax(I, args, kw, is_max):
             j = I.path.fresh("mm_j", z3.IntSort())
             I.path.assume(z3.And(0 <= j, j < xs.n, I.eq(xs.get(j), r)))
             el = xs.et.wrap(z3.Select(xs.arr, i))
-            le = I.lt(el, r, False) if is_max else I.lt(r, el, False)
+            saved_spec = I.spec
+            I.spec = True      # `el` mentions the bound index
+            try:
+                le = I.lt(el, r, False) if is_max else I.lt(r, el, False)
+            finally:
+                I.spec = saved_spec
             I.path.assume(z3.ForAll([i], z3.Implies(z3.And(0 <= i, i < xs.n), le)))
             return r
         else:
@@ -1083,7 +1091,7 @@ def view_to_seq(I, view):
     else:
         keys = listing_of_dom(I, m.dom, m.card, m.kt)
     if view.kind == "keys":
-        return keys
+        return D.key_seq_to_str(keys) if m.kt is D.TDKey else keys
     i = z3.Int("vw_i")
     ki = z3.Select(keys.arr, i)
     if view.kind == "values":
@@ -1183,7 +1191,8 @@ def bi_sorted(I, args, kw):
     if isinstance(v, (VMapView, VMap)) and key is None:
         view = v if isinstance(v, VMapView) else VMapView(v, "keys")
         if view.kind == "keys" and isinstance(view.m, VMap):
-            return listing_of_dom(I, view.m.dom, view.m.card, view.m.kt, sorted_=True)
+            r = listing_of_dom(I, view.m.dom, view.m.card, view.m.kt, sorted_=True)
+            return D.key_seq_to_str(r) if view.m.kt is D.TDKey else r
     if isinstance(v, VSet) and key is None:
         return listing_of_dom(I, v.dom, v.card, v.kt, sorted_=True)
     if isinstance(v, VEmptySet) or isinstance(v, VEmptyList):
@@ -1227,8 +1236,13 @@ def sort_seq(I, v, key):
         allnum = z3.ForAll([i], z3.Implies(z3.And(0 <= i, i < n), D.is_num(ki.e)))
         if not p.branch(z3.Or(allstr, allnum, n <= 1)):
             I.raise_exc("TypeError", "'<' not supported between these sort keys")
-    le = I.lt(ki, kj, False)
-    keq = I.eq(ki, kj)
+    saved_spec = I.spec
+    I.spec = True      # the keys mention the bound indices i, j: compare them as total terms, never fork
+    try:
+        le = I.lt(ki, kj, False)
+        keq = I.eq(ki, kj)
+    finally:
+        I.spec = saved_spec
     p.assume(z3.ForAll([i, j], z3.Implies(z3.And(0 <= i, i < j, j < n), le)))
     p.assume(z3.ForAll([i, j], z3.Implies(z3.And(0 <= i, i < j, j < n, keq), sg(i) < sg(j))))
     res.perm = (sg, sgi, v)
@@ -1502,6 +1516,7 @@ def map_get(I, m, k, default):
     present = z3.Select(m.dom, kk)
     I.ver.on_map_read(I, m, kk, guard=present)
     val = m.get(kk)
+    D.key_fact(I, m, kk)
     if m.vt is TDyn and not isinstance(default, VDyn):
         try:
             # a JSON-like default ({} / [] / 0 / "") joins the Dyn value without forking the path
@@ -1520,7 +1535,14 @@ def map_get(I, m, k, default):
             r = t.wrap(z3.If(present, unwrap(val, t), t.none()))
             return r
         if not isinstance(val, (VSeq, VMap, VSet)):
-            return I.ite(present, val, default)
+            r = I.ite(present, val, default)
+            if isinstance(r, VDyn) and not I.spec:
+                # name the result: chains of d.get(k, {}) would otherwise nest if-then-else terms inside selectors,
+                # which the solver expands exponentially
+                g = VDyn(I.path.fresh("dget", r.e.sort()))
+                I.path.assume(g.e == r.e)
+                return g
+            return r
     except (Unsupported, TypeError):
         pass
     if I.spec:
@@ -1575,7 +1597,7 @@ def map_method(I, m, name, args, kw):
         other = I.force(args[0]) if args else VDictRec(kw)
         if isinstance(other, VDictRec):
             for k2, v2 in other.fields.items():
-                map_store(I, m, z3.StringVal(k2), v2)
+                map_store(I, m, unwrap(VStr(k2), m.kt), v2)
             return VNone()
         raise Unsupported("dict.update with symbolic map")
     if name == "move_to_end":
@@ -1763,7 +1785,8 @@ def comprehension(I, n, env):
             return VEmptyList()
         mk_item = lambda idx: base.get(idx)
     if not I.spec and getattr(I.ver.cur, "strict_comps", False):
-        _check_comp_body(I, n, gen, env, base, mk_item)
+        if not _check_comp_body(I, n, gen, env, base, mk_item):
+            return VEmptyList()      # empty source: the body is never evaluated
     else:
         I.ver.note_assumption("comprehension bodies are evaluated as pure total expressions")
     p = I.path
@@ -1826,15 +1849,16 @@ def _check_comp_body(I, n, gen, env, base, mk_item):
     The value of the comprehension is still the total (spec mode) encoding built afterwards."""
     p = I.path
     if not p.branch(base.n > 0):
-        return
+        return False
     j = p.fresh("cp_elem", z3.IntSort())
     p.assume(z3.And(0 <= j, j < base.n))
     e2 = Env(env, env.module)
     I.assign(gen.target, mk_item(j), e2)
     for c in gen.ifs:
         if not I.test(I.ev(c, e2)):
-            return
+            return True
     I.ev(n.elt, e2)
+    return True
 
 
 def _has_ite(e):
